@@ -14,7 +14,7 @@ import dlib  # noqa: E402
 logging.disable(logging.CRITICAL)
 
 from traits.api import (  # noqa: E402
-    Any, CInt, Constant, Disallow, Event, HasPrivateTraits, HasStrictTraits, HasTraits, Int, Python,
+    Any, CInt, Constant, Disallow, Event, Map, HasPrivateTraits, HasStrictTraits, HasTraits, Int, Python,
     ReadOnly, Str, Undefined,
 )
 
@@ -61,6 +61,8 @@ def mk(pol):
         return Constant(val(pol[1]))
     if k == "Event":
         return Event() if len(pol) == 1 else Event({"VInt": Int, "VStr": Str, "VCInt": CInt}[pol[1]])
+    if k == "Map":      # ["Map", [[key, value], ...], default key]
+        return Map({val(a): val(b) for a, b in pol[1]}, default_value=val(pol[2]))
     if k == "Typed":
         return {"VInt": Int, "VStr": Str, "VCInt": CInt}[pol[1]](val(pol[2]))
     raise ValueError(pol)
@@ -109,8 +111,11 @@ def execute(obj, ops, other=None):
                 raise ValueError(k)
         except Exception as e:  # noqa
             out = ["Raise", dlib.exn_name(e, EXN)]
-        st = obj.__dict__.get(n, MISSING)
-        hist.append({"out": out, "stored": None if st is MISSING else atom(st)})
+        def stored(m):
+            st = obj.__dict__.get(m, MISSING)
+            return None if st is MISSING else atom(st)
+        hist.append({"out": out, "stored": stored(n), "shadow": stored(n + "_"),
+                     "base": stored(n[:-1]) if n.endswith("_") else None})
     return hist
 
 
